@@ -54,7 +54,8 @@ pub fn gen_limits(w: &mut Rng, kind: LimitKind) -> Option<([f64; 6], [f64; 6])> 
             let mut f = [0.0; 6];
             let mut t = [0.0; 6];
             for i in 0..6 {
-                let half = w.range_f64(160.0, 225.0f64).to_radians();
+                // multi-turn joints (wrists of real robots): +-900 degrees now and then
+                let half = if w.chance(0.15) { 900.0f64 } else { w.range_f64(160.0, 225.0f64) }.to_radians();
                 f[i] = -half;
                 t[i] = half;
             }
@@ -84,6 +85,11 @@ pub fn gen_limits(w: &mut Rng, kind: LimitKind) -> Option<([f64; 6], [f64; 6])> 
                     let width = w.range_f64(90.0, 300.0f64).to_radians();
                     f[i] = start;
                     t[i] = start + width - 2.0 * PI;
+                    // the same arc written with `to` one more turn down (from - to > 2 pi), where
+                    // that still fits into [-2 pi, 2 pi]
+                    if w.chance(0.3) && t[i] - 2.0 * PI >= -2.0 * PI && f[i] > 0.0 {
+                        t[i] -= 2.0 * PI;
+                    }
                 } else {
                     let c = w.range_f64(-60.0, 60.0f64).to_radians();
                     let half = w.range_f64(60.0, 170.0f64).to_radians();
@@ -106,8 +112,9 @@ pub fn gen_safety(w: &mut Rng, has_tool: bool, has_base: bool, n_env: usize, tou
         return SafetySpec::touch(if mode == Mode::NoCheck { Mode::All } else { mode });
     }
     let dist = |w: &mut Rng| -> f32 {
-        if w.chance(0.03) {
-            return *w.pick(&[1e-6f32, 1e-4, 2.0, 10.0]);
+        if w.chance(0.12) {
+            // extremes: micrometre clearances, negative zero as "touch only", metres
+            return *w.pick(&[1e-6f32, 2e-5, 1e-4, 5e-4, 9e-4, -0.0, -0.0, 2.0, 10.0]);
         }
         match w.below(6) {
             0 | 1 => 0.0,
@@ -169,6 +176,23 @@ pub fn gen_safety(w: &mut Rng, has_tool: bool, has_base: bool, n_env: usize, tou
             _ => dist(w),
         };
         special.push((a as u16, b as u16, d));
+    }
+    // large scenes: some (link / tool, environment body) pairs get a clearance far larger than
+    // the general one
+    if n_env > 6 {
+        for _ in 0..w.range_usize(2, 5) {
+            let a = if has_tool && w.chance(0.3) { J_TOOL } else { w.below(6) };
+            let b = ENV0 + w.below(n_env);
+            if special.iter().any(|&(x, y, _)| (x as usize == a && y as usize == b) || (x as usize == b && y as usize == a)) {
+                continue;
+            }
+            let d = *w.pick(&[0.5f32, 1.0, 2.0, 3.0]);
+            if w.chance(0.5) {
+                special.push((a as u16, b as u16, d));
+            } else {
+                special.push((b as u16, a as u16, d));
+            }
+        }
     }
     SafetySpec { to_env, to_robot, special, mode }
 }
@@ -298,7 +322,8 @@ pub enum Relation {
 /// Add environment bodies placed relative to where the robot's bodies are at `anchor`.
 /// Returns the relation used for each body (reach statistics).
 pub fn add_environment(w: &mut Rng, cell: &mut CellSpec, anchor: &[f64; 6], k: &CellKnobs) -> Vec<Relation> {
-    let n_env = if k.max_env > 6 { w.range_usize(6, k.max_env) } else { w.below(if k.sparse { k.max_env.min(2) } else { k.max_env } + 1) };
+    let big = if w.chance(0.5) { 20 } else { 6 };
+    let n_env = if k.max_env > 6 { w.range_usize(6, k.max_env.max(big)) } else { w.below(if k.sparse { k.max_env.min(2) } else { k.max_env } + 1) };
     let mut rels = Vec::new();
     if n_env == 0 {
         return rels;
@@ -366,8 +391,14 @@ pub fn add_environment(w: &mut Rng, cell: &mut CellSpec, anchor: &[f64; 6], k: &
             Relation::Grazing => {
                 // a plate slid along `axis` until its distance to the target is r + delta
                 let r = cell.safety.distance(tgt, idx).max(0.0);
-                let delta = (w.range_f64(0.0005, 0.01) * if w.chance(0.5) { 1.0 } else { -1.0 }) as f32;
-                let want = (r + delta).max(0.0003);
+                // the gap differs from the safety distance by millimetres, or, for tiny safety
+                // distances, by a fraction of the distance itself
+                let delta = if r > 0.0 && r < 2e-3 {
+                    r * (w.range_f64(0.15, 0.8) * if w.chance(0.5) { 1.0 } else { -1.0 }) as f32
+                } else {
+                    (w.range_f64(0.0005, 0.01) * if w.chance(0.5) { 1.0 } else { -1.0 }) as f32
+                };
+                let want = if r > 0.0 && r < 2e-3 { r + delta } else { (r + delta).max(0.0003) };
                 let mut half = [w.range_f64(0.1, 0.5) as f32; 3];
                 half[axis] = w.range_f64(0.005, 0.03) as f32;
                 let mesh = MeshSpec::cube(half, [0.0; 3], 1 + w.below(k.max_sub as usize) as u8);
